@@ -55,6 +55,17 @@ func (run *hsRun) natives(vm *goatlang.VM) {
 	vm.Set("host.Mark", goatlang.NewFunc(1, 1, func(v *goatlang.VM, a []goatlang.Value) goatlang.Value { return goatlang.Int(0) }))
 	vm.Set("host.Obs", goatlang.NewFunc(1, 0, func(v *goatlang.VM, a []goatlang.Value, va ...goatlang.Value) []goatlang.Value { return nil }))
 	vm.Set("host.Tag", goatlang.NewFunc(1, 1, func(v *goatlang.VM, a []goatlang.Value) goatlang.Value { return a[0] }))
+	// the other engines' natives, as inert stand-ins (sources from their generators are pool material here)
+	anyArgs := func(v *goatlang.VM, a []goatlang.Value, va ...goatlang.Value) []goatlang.Value { return nil }
+	one := func(v *goatlang.VM, a []goatlang.Value, va ...goatlang.Value) []goatlang.Value {
+		return []goatlang.Value{goatlang.Int(1 + run.failN%3)}
+	}
+	for _, n := range []string{"Enter", "Leave", "At", "Op", "Get", "GetOk", "Len", "Start", "Iter", "End", "Init"} {
+		vm.Set("host."+n, goatlang.NewFunc(1, 0, anyArgs))
+	}
+	for _, n := range []string{"Idx", "Den", "Flag", "Give", "Re", "NegZero", "N0", "N1", "N2", "N3", "N4", "N5", "N6", "N7", "N8", "N9", "N10"} {
+		vm.Set("host."+n, goatlang.NewFunc(1, 1, one))
+	}
 }
 
 var hsWrappers = map[string]string{
